@@ -51,6 +51,24 @@ TECH = {
 }
 DESIGN = {"dur": "DESIGN.md 3 (XsDurable), 4.4, 5 (C04 C10 C07); docs/dur-notes.md", "codec": "DESIGN.md 5 (C12)","http": "DESIGN.md 5 (C13), Appendix D","conc": "DESIGN.md 3, 4.1, 5 (C02 C03 C11)", "store": "DESIGN.md 3, 4, 5 (C01 C05 C07 C08 C09 C20)"}
 
+# what each check decides of its property, and through which group
+PROP = {
+ "C01": "store: every read (both paths, ctx x last-id x limit), get and the order of append ids, after every step of TLC-generated and random histories incl. reopen, import, GC, expiry; bulk storage layouts only in the durability group's bulk runs.",
+ "C02": "conc: poller never misses / stream grows at its end / broadcast order under all gate-level interleavings of 2-3 writers (TLC) and on explored real schedules, plus hook-free stress with production buffer sizes.",
+ "C03": "conc: strictly increasing, duplicate-free, complete delivery and threshold placement for every explored interleaving of append with subscribe / scan / hand-off / live; http: the same over GET /?follow and head --follow. Known finding C03-ephemeral-dropped is recognised by its specific pattern only.",
+ "C04": "dur: every store-mutating system call after the first ACK is a crash point: real SIGKILL images and reconstructed power-loss images recovered by the real Store::new; membership in {Apply(acked), Apply(acked + in flight)}, partition and access-path agreement, registry, content after kill.",
+ "C05": "store: get / all-contexts read / own-context read agree, head exact for prefix-related, empty, multi-byte and long topics, NUL rejected on append and import with raw partition dumps; XsKeys: the key-layout argument over all short byte strings.",
+ "C06": "store: reads and head per context incl. numerically adjacent context ids; conc: follower context filter; http: every route taking a context incl. head --follow; handler dispatch/output and script-visible commands: processors group.",
+ "C07": "store: append accepted iff context usable, xs.context only in the zero context and stored forever, registry = function of frames after import / remove / reopen (raw registry dump); dur: after crash-reopen.",
+ "C08": "store: a frame vanishes only if removed, expired (virtual clock at ts+N-1, ts+N, ts+N+1 and while a scan is stalled) or outside the K newest after a head:K append; GC steps interleaved by the gate; TLC action property C08_NoEarlyLoss on the model.",
+ "C09": "store: ephemeral never stored, expired never read on either path, gone after drain, head bound and eviction order after drain; conc: ephemeral frames reach subscribed followers. Known finding C09-reopen-drops-head-gc recognised by its specific pattern only.",
+ "C10": "store/http: byte-exact read-back of every content class, hash determinism across calls, entry points (Store API, POST /{topic}, POST /cas) and restarts, no body => no hash, every visible hash has content; conc: content readable at delivery; dur: after every kill image. nu / handler / command / generator entry points: processors group.",
+ "C11": "conc: limit exact for every split between history and live, tail, synthetic frames private, stream ends after lag (B = 1 scenarios and production sizes in stress); store: limit on non-following reads incl. expired frames, tail without follow.",
+ "C12": "codec: TTL and read-option grammar exhaustively at token level through every spelling and entry point, 2000 seeded ReadOptions round trips; store/http: every accepted frame (meta classes: deep nesting, u64::MAX, i64::MIN, 1e300, escapes, non-object metas, 5 KB strings) reads back identical on every path and survives reopen; a panic in the decoder is an observation.",
+ "C13": "http: each route against the store semantics (TraceStore) with status codes, NDJSON = SSE, ~43 malformed request classes answered 4xx with unchanged partitions and a serving server, follow routes.",
+ "C20": "store/http: export of a TLC/random-built store imported in random order with duplicates into an empty store (Store API and POST /cas + POST /import): same frames, heads, content, usable contexts; import keeps ids, identical re-import is a no-op, NUL topic or a different frame under a stored id is rejected whole.",
+}
+
 hooks_commits = subprocess.run("git -C /repo log --format=%h --grep='^verif hooks' ", shell=True, capture_output=True, text=True).stdout.split()
 
 m = {
@@ -84,7 +102,8 @@ for p in props:
             "evidence_file": f"evidence/{pid}.json",
             "replay_cmd_template": "python3 tools/replay.py {path}",
             "engine": "check.py",
-            "level_claimed": {"category": "model_checking", "text": " ".join(TEXT[g] for g in gs),
+            "level_claimed": {"category": "model_checking",
+                              "text": (PROP.get(pid, "") + " HOW: " + " ".join(TEXT[g] for g in gs)).strip(),
                               "design_ref": "; ".join(DESIGN[g] for g in gs)},
             "level_note": " ".join(NOTE[g] for g in gs),
             "technique": "; ".join(TECH[g] for g in gs),
